@@ -64,20 +64,52 @@ def compare_tracks(loaded, fd_tracks, what):
     return out
 
 
-def check_roundtrip(fd):
+def check_roundtrip(fd, via='file'):
     try:
         mid = build_file(fd)
     except Exception as exc:  # noqa: BLE001
         return [fail('build-raises', f'{exc!r}', exc=exc_sig(exc))]
-    try:
-        b = save_bytes(mid)
-    except Exception as exc:  # noqa: BLE001
-        return [fail('save-raises', f'{exc!r}', exc=exc_sig(exc))]
-    try:
-        back = load_bytes(b)
-    except Exception as exc:  # noqa: BLE001
-        return [fail('load-raises', f'saved file does not load: {exc!r}', exc=exc_sig(exc))]
     out = []
+    if via == 'filename':
+        # the same through real files: save(filename) / MidiFile(filename); the path first holds the remains of a failed
+        # save of a longer file, which must not show through
+        import os
+        import tempfile
+        with tempfile.TemporaryDirectory(prefix='c07_') as tmp:
+            path = os.path.join(tmp, 'x.mid')
+            junk = mido.MidiFile(type=1, tracks=[mido.MidiTrack([mido.Message('note_on', time=i) for i in range(300)] +
+                                                                [mido.Message('clock')])])
+            try:
+                junk.save(path)
+            except ValueError:
+                pass
+            try:
+                mid.save(path)
+                with open(path, 'rb') as f:
+                    b = f.read()
+                back = mido.MidiFile(path)
+                if back.filename != path:
+                    out.append(fail('filename-attr', f'MidiFile(filename).filename is {back.filename!r}'))
+            except Exception as exc:  # noqa: BLE001
+                return [fail('save-raises', f'via filename: {exc!r}', exc=exc_sig(exc), via='filename')]
+        try:
+            if save_bytes(mid) != b:
+                out.append(fail('filename-bytes', 'save(filename) and save(file=) wrote different bytes'))
+        except Exception as exc:  # noqa: BLE001
+            out.append(fail('save-raises', f'{exc!r}', exc=exc_sig(exc)))
+    else:
+        try:
+            b = save_bytes(mid)
+        except Exception as exc:  # noqa: BLE001
+            return [fail('save-raises', f'{exc!r}', exc=exc_sig(exc))]
+        try:
+            back = load_bytes(b)
+            other = load_bytes(b)
+            if other.tracks and other.tracks[0]:
+                other.tracks[0][0].time = 987654          # a second load must not share messages with the first
+                other.tracks[0].append(mido.Message('note_on'))
+        except Exception as exc:  # noqa: BLE001
+            return [fail('load-raises', f'saved file does not load: {exc!r}', exc=exc_sig(exc))]
     if back.type != fd['type'] or back.ticks_per_beat != fd['tpb']:
         out.append(fail('header', f'type/tpb {back.type}/{back.ticks_per_beat} != {fd["type"]}/{fd["tpb"]}'))
     out += compare_tracks(back.tracks, fd['tracks'], 'reload')
@@ -204,7 +236,7 @@ def check_fixed_point(b):
 def run_case(case):
     k = case['kind']
     if k == 'roundtrip':
-        return check_roundtrip(case['file'])
+        return check_roundtrip(case['file'], case.get('via', 'file'))
     if k == 'refusal':
         return check_refusal(case['file'], case['inj'])
     if k == 'bytes':
@@ -305,7 +337,8 @@ def mutated_bytes(draw):
 def hyp_shard(rec, shard):
     block, k, n = shard
     if block == 'roundtrip':
-        files = st.fixed_dictionaries({'kind': st.just('roundtrip'), 'file': S.file_dicts(time=BIG)})
+        files = st.fixed_dictionaries({'kind': st.just('roundtrip'), 'file': S.file_dicts(time=BIG),
+                                       'via': st.sampled_from(['file', 'file', 'file', 'filename'])})
         rec.hyp(files, n, label='roundtrip', seed_offset=k)
     elif block == 'refusal':
         rec.hyp(refusal_cases(), n, label='refusal', seed_offset=100 + k)
